@@ -54,6 +54,12 @@ class SeqRef:
             return self.ev(e[1], T) ^ self.ev(e[2], T)
         if k == "ite":
             return self.ev(e[2], T) if self.cond(e[1], T) else self.ev(e[3], T)
+        if k == "prio":
+            x, y, vec = self.ev(e[2], T), self.ev(e[3], T), self.inp[e[1]]
+            for i in range(3):
+                if (vec >> i) & 1:
+                    return (x + i) & 15
+            return y
         if k == "pick":
             x, y = self.ev(e[2], T), self.ev(e[3], T)
             if self.cond(e[1], T):
